@@ -139,6 +139,7 @@ def run(res, tier, rng, table_diffs=()):
         cases.append(("calls", call_program(rng.fork())))
     from .. import gen2
     cases += gen2.big_code_programs()
+    cases += gen2.width_boundary_programs()
     cases += [("iife", p) for p in gen2.iife_programs()]
     for _ in range(400 if tier == "quick" else 8000):
         cases.append(("fn-values", gen2.fnvalue_program(rng.fork())))
